@@ -88,6 +88,15 @@ pub trait Check: Sync {
     }
 }
 
+/// Scheduling quanta a finite search tree may take before "still running" counts as a violation:
+/// proportional to the work the reference interpreter needed (its evaluation steps and answers;
+/// every answer also pays for the query's reification goals). The factors are two orders of
+/// magnitude above the largest ratio measured on the unchanged tree (`quanta_needed_over_budget`
+/// in the evidence stays below 0.05).
+pub fn finite_budget(reference_steps: u64, answers: usize) -> u64 {
+    20_000 + 400 * reference_steps + 4_000 * answers as u64
+}
+
 pub fn case_seed(seed: u64, property: &str, index: u64) -> u64 {
     mix(&[seed, crate::rng::hash_str(property), index])
 }
